@@ -299,6 +299,30 @@ func init() {
 		Old: "\t\ts.aofsz += n\n\t\tdata := packet[:n]", New: "\t\tdata := packet[:n]",
 		Expect: "R4.size-accounting", Key: "read-counted-before-parse", Why: "aofsz stays 0 after start-up"})
 
+	// ---- R6 ----------------------------------------------------------------
+	mutant(&Mutant{Name: "follow-small-log-no-reset", Props: []string{"C06"}, File: "internal/server/checksum.go",
+		Old: "\t\treturn s.followStartOver()\n\t}\n\n\tconn, err := DialTimeout", New: "\t\treturn 0, nil\n\t}\n\n\tconn, err := DialTimeout",
+		Expect: "R6.position-implies-state", Key: "return-0", Why: "reverse of the resync fix (small local log)"})
+	mutant(&Mutant{Name: "follow-startover-no-reset", Props: []string{"C06"}, File: "internal/server/checksum.go",
+		Old: "\t\treturn 0, err\n\t}\n\ts.reset()\n\treturn 0, nil\n}", New: "\t\treturn 0, err\n\t}\n\treturn 0, nil\n}",
+		Expect: "R6.position-implies-state", Key: "return-0", Why: "reverse of the resync fix (mismatching first window)"})
+	mutant(&Mutant{Name: "follow-reload-without-reset", Props: []string{"C06"}, File: "internal/server/checksum.go",
+		Old: "\tlog.Infof(\"reloading aof commands\")\n\ts.reset()\n", New: "\tlog.Infof(\"reloading aof commands\")\n",
+		Expect: "R6.position-implies-state", Key: "return-truncated", Why: "the truncated log is replayed on top of the old dataset"})
+	mutant(&Mutant{Name: "follow-caughtup-unconditional", Props: []string{"C06"}, File: fFollow,
+		Old: "\tcaughtUp := pos >= aofSize\n\tif caughtUp {\n\t\ts.setCaughtUp(true)", New: "\tcaughtUp := pos >= aofSize\n\tif caughtUp || pos == 0 {\n\t\ts.setCaughtUp(true)",
+		Expect: "R6.caught-up-guard", Key: "setCaughtUp(true)", Why: "an empty follower reports caught up immediately"})
+	mutant(&Mutant{Name: "follow-caughtup-wrong-operand", Props: []string{"C06"}, File: fFollow,
+		Old: "\t\t\tif aofsz >= int(aofSize) {", New: "\t\t\tif aofsz >= int(pos) {",
+		Expect: "R6.caught-up-guard", Key: "setCaughtUp(true)", Why: "compares the position with itself instead of the leader's size"})
+	mutant(&Mutant{Name: "follow-handle-lock-late", Props: []string{"C06"}, File: fFollow,
+		Old: "\ts.mu.Lock()\n\tdefer s.mu.Unlock()\n\tif int(s.followc.Load()) != followc {\n\t\treturn s.aofsz, errNoLongerFollowing\n\t}\n\tmsg := &Message{Args: args}",
+		New: "\tif int(s.followc.Load()) != followc {\n\t\treturn 0, errNoLongerFollowing\n\t}\n\ts.mu.Lock()\n\tdefer s.mu.Unlock()\n\tmsg := &Message{Args: args}",
+		Expect: "R6.apply-under-lock", Key: "lock-dominates", Why: "a command of a superseded leader can be applied after FOLLOW changed"})
+	mutant(&Mutant{Name: "reset-forgets-hooks", Props: []string{"C06"}, File: fServer,
+		Old: "\ts.hookExpires.Clear()\n\ts.hooks.Clear()\n\ts.hooksOut.Clear()\n\ts.hookTree.Clear()\n\ts.hookCross.Clear()\n}", New: "\ts.hookExpires.Clear()\n\ts.hooksOut.Clear()\n\ts.hookTree.Clear()\n\ts.hookCross.Clear()\n}",
+		Expect: "R6.reset-complete", Key: "reset-clears/hooks", Why: "hooks of the previous life survive the resync"})
+
 	// ---- neutral variants --------------------------------------------------
 	mutant(&Mutant{Name: "neutral-rename-write-flag", Props: []string{"C03", "C07", "C15"}, Neutral: true, File: fScripts,
 		Old: "func (s *Server) luaTile38NonAtomic(msg *Message) (resp.Value, error) {\n\tvar write bool\n", New: "func (s *Server) luaTile38NonAtomic(msg *Message) (resp.Value, error) {\n\tvar write bool\n\t_ = \"neutral\"\n",
